@@ -1531,6 +1531,11 @@ def c19_execs(r, quick):
                         if (k + li) % 2:
                             c["eps"], c["tol"] = gen.hx(1e-5), gen.hx(1e-3)
                         cmds.append(c)
+                    # verdicts on both sides of a NON-default tolerance, through both overloads: the passed tolerance must be the one used
+                    for (lm, tol) in ((3e-5, 1e-6), (2e-3, 1e-2), (3e-5, 1e-3), (2e-3, 1e-6)):
+                        lie = (1, r.randrange(N), 0, lm)
+                        cmds.append({"op": "check_grad", "obj": 1, "x": gen.hv(p.x(r)), "ws": 0, "costs": gen.cost_params(r, lie),
+                                     "overload": 2 if (k + int(lm * 1e6)) % 2 else 3, "eps": gen.hx(1e-6), "tol": gen.hx(tol)})
                     cmds.append({"op": "evaluate", "obj": 1, "x": gen.hv(p.x(r)), "ws": 0, "costs": gen.cost_params(r), "overload": 3})
                     execs.append((len(cmds) * N * D * (order + 1), cmds))
     return execs
